@@ -2,7 +2,8 @@
 (* Exhaustive model of BitswapEngine in the ideal mode (Devs = {}): small universe. *)
 EXTENDS BitswapEngine
 CONSTANTS MCLimits, MCMsgLen, MCIgnored, MCBig,
-          MCNCfg   \* 3: all three configurations per limit, 2: the first two
+          MCNCfg,  \* 2: two configurations per limit, 3: four
+          MCKindSel \* "three": want-block+sdh, want-have+sdh, want-block ; "two": want-block+sdh, want-have
 
 MCDeny == [p \in Peers |-> IF p = 1 THEN {NC} ELSE {}]      \* peer 1 is denied the last CID
 NoDeny == [p \in Peers |-> {}]
@@ -12,7 +13,7 @@ MCCfgs == UNION {{MkCfg(l, TRUE, TRUE, MCDeny), MkCfg(l, FALSE, FALSE, NoDeny)}
 \* wantlists a peer may send: every single want / cancel, and every pair of want-blocks for two
 \* different CIDs in both orders with all priority combinations (in-message overflow and ordering);
 \* with MCMsgLen = 2 additionally every sequence of two arbitrary entries (duplicate CIDs, mixes)
-Kinds == {<<"B", TRUE>>, <<"H", TRUE>>, <<"B", FALSE>>}
+Kinds == IF MCKindSel = "three" THEN {<<"B", TRUE>>, <<"H", TRUE>>, <<"B", FALSE>>} ELSE {<<"B", TRUE>>, <<"H", FALSE>>}
 Want(c, pr, k) == [c |-> c, prio |-> pr, wt |-> k[1], cancel |-> FALSE, sdh |-> k[2]]
 CancelOf(c) == [c |-> c, prio |-> 0, wt |-> "B", cancel |-> TRUE, sdh |-> FALSE]
 Singles == {<<Want(c, pr, k)>> : c \in Cids, pr \in Prios, k \in Kinds} \cup {<<CancelOf(c)>> : c \in Cids}
